@@ -21,6 +21,7 @@ import (
 	"fmt"
 	"log"
 	"reflect"
+	"sort"
 	"sync"
 	"sync/atomic"
 	"time"
@@ -252,6 +253,26 @@ func (sw *SlidingWindow) Add(data any) {
 	// landing in a triggered window still open for late updates. Drop the rest so
 	// sw.data cannot grow without bound under sustained out-of-order input.
 	if timeChar == types.EventTime && sw.watermark != nil && sw.watermark.IsEventTimeLate(eventTime) {
+		// With size > slide a late row can belong to several fired windows still open
+		// for late updates, and to the current not-yet-fired window as well. Re-emit
+		// every such fired window (the switch below handles at most one, and none when
+		// the current window contains the row); the row itself stays buffered.
+		if sw.config.AllowedLateness > 0 {
+			var slots []*types.TimeSlot
+			for _, info := range sw.triggeredWindows {
+				if info.slot.Contains(eventTime) {
+					slots = append(slots, info.slot)
+				}
+			}
+			inCurrent := sw.currentSlot != nil && sw.currentSlot.Contains(eventTime)
+			if len(slots) > 1 || (len(slots) == 1 && inCurrent) {
+				sort.Slice(slots, func(i, j int) bool { return slots[i].End.Before(*slots[j].End) })
+				for _, slot := range slots {
+					sw.triggerLateUpdateLocked(slot)
+				}
+				return
+			}
+		}
 		switch {
 		case sw.initialized && sw.currentSlot != nil && sw.currentSlot.Contains(eventTime):
 			// watermark advanced past the window start but the window has not
